@@ -31,6 +31,10 @@ def main(argv=None):
     lprun.root()
     from . import evidence, pool
     pool.KNOWN_FPS = set(evidence.known_for(pid))
+    if a.tier == "thorough" and not a.replay:
+        import time
+        budget = float(os.environ.get("VERIF_THOROUGH_BUDGET_S", "3000"))
+        pool.DEADLINE = time.time() + budget
     mod = importlib.import_module("vf.checks." + pid.lower())
     if a.replay:
         return mod.replay(a.replay)
